@@ -107,8 +107,11 @@ impl Method for Vidya {
 			self.dn_sum = 0.;
 		}
 
-		self.last_output = if self.up_sum != 0. || self.dn_sum != 0. {
-			let cmo = ((self.up_sum - self.dn_sum) / (self.up_sum + self.dn_sum)).abs();
+		// both sums may carry rounding residue of either sign: their total may be zero (or negative) while they are not,
+		// and their ratio may leave [0; 1]
+		let sum = self.up_sum + self.dn_sum;
+		self.last_output = if sum > 0. {
+			let cmo = ((self.up_sum - self.dn_sum) / sum).abs().min(1.);
 			let f_cmo = self.f * cmo;
 			input.mul_add(f_cmo, (1.0 - f_cmo) * self.last_output)
 		} else {
